@@ -19,6 +19,38 @@ type c03Snap struct {
 	tag      string
 	value    string
 	children []*c03Snap
+	// alias nodes (c03SnapshotDoc): the snapshot and position of the anchored node the alias stands for
+	aliasOf  *c03Snap
+	aliasPos []int
+}
+
+// c03SnapshotDoc snapshots a whole document that may hold aliases: an alias is recorded as a reference to the
+// snapshot of its anchored node (which lies in the same document), so that the expected dump shows what the alias
+// reads as after the deletion.
+func c03SnapshotDoc(root *CandidateNode) *c03Snap {
+	snapOf := map[*CandidateNode]*c03Snap{}
+	posOf := map[*CandidateNode][]int{}
+	var walk func(n *CandidateNode, pos []int) *c03Snap
+	walk = func(n *CandidateNode, pos []int) *c03Snap {
+		sn := &c03Snap{kind: n.Kind, tag: n.Tag, value: n.Value}
+		snapOf[n], posOf[n] = sn, pos
+		for i, c := range n.Content {
+			sn.children = append(sn.children, walk(c, append(append([]int{}, pos...), i)))
+		}
+		return sn
+	}
+	rootSnap := walk(root, nil)
+	var link func(n *CandidateNode)
+	link = func(n *CandidateNode) {
+		if n.Kind == AliasNode && n.Alias != nil {
+			snapOf[n].aliasOf, snapOf[n].aliasPos = snapOf[n.Alias], posOf[n.Alias]
+		}
+		for _, c := range n.Content {
+			link(c)
+		}
+	}
+	link(root)
+	return rootSnap
 }
 
 func c03Snapshot(n *CandidateNode) *c03Snap {
@@ -41,6 +73,19 @@ func c03FindPos(root, target *CandidateNode, prefix []int) ([]int, bool) {
 		}
 	}
 	return nil, false
+}
+
+// c03FindAllPos: every position at which the node object target occurs under root (more than one only if a producer
+// left the same node object in two places).
+func c03FindAllPos(root, target *CandidateNode, prefix []int) [][]int {
+	var out [][]int
+	if root == target {
+		out = append(out, prefix)
+	}
+	for i, c := range root.Content {
+		out = append(out, c03FindAllPos(c, target, append(append([]int{}, prefix...), i))...)
+	}
+	return out
 }
 
 func c03PosSelected(sel [][]int, pos []int) bool {
@@ -66,6 +111,11 @@ func c03ExpectedDump(s *c03Snap, pos []int, sel [][]int) string {
 	switch s.kind {
 	case ScalarNode:
 		return "<" + s.tag + " " + s.value + ">"
+	case AliasNode:
+		if s.aliasOf == nil {
+			return "*<nil>"
+		}
+		return "*" + c03ExpectedDump(s.aliasOf, s.aliasPos, sel)
 	case SequenceNode:
 		out := "["
 		first := true
@@ -420,3 +470,178 @@ func VerifC03DeleteDocuments() {
 	verifAssert(k == len(out), "C03/del-kept-a-selected-document "+label)
 	verifCover("C03/documents/end")
 }
+
+// VerifC03DeleteInDerivedDocument: the container the selection reaches into was produced by an earlier step that
+// rebuilt part of the document — exploded aliases, a copy assigned to a new key, a value bound to a variable:
+//   a: &x {p: V1, q: V2}   b: *x   c: &y [V3, V4]   d: *y
+// `f | del(s)` removes exactly what s selects in f's result; in particular deleting inside an exploded alias or
+// inside a copy leaves the anchored original alone (and deleting through a live alias edits the anchored node).
+func VerifC03DeleteInDerivedDocument() {
+	v1, v2 := verifStrN("v1", 1, "03"), verifStrN("v2", 1, "03")
+	v3, v4 := verifStrN("v3", 1, "03"), verifStrN("v4", 1, "03")
+	build := func() *CandidateNode {
+		x := vMap(vStr("p"), vInt(v1), vStr("q"), vInt(v2))
+		x.Anchor = "x"
+		y := vSeq(vInt(v3), vInt(v4))
+		y.Anchor = "y"
+		return vDoc(vMap(vStr("a"), x, vStr("b"), &yaml.Node{Kind: yaml.AliasNode, Value: "x", Alias: x},
+			vStr("c"), y, vStr("d"), &yaml.Node{Kind: yaml.AliasNode, Value: "y", Alias: y}))
+	}
+	producers := []string{"explode(.)", "explode(.b) | explode(.d)", "(.b, .d) |= explode(.)", ".e = .a | .f = .c", ".", ".e = (.b | explode(.))"}
+	pnames := []string{"explode-all", "explode-the-aliases", "update-explode", "copies", "identity", "assign-exploded"}
+	pi := verifChoice("producer", len(producers))
+	// a selection is a union of parts; each part names the top-level entry it reaches into (-1: anywhere), which
+	// tells positions apart should the producer have left one node object in two places
+	type part struct {
+		text string
+		top  int
+	}
+	sels := [][]part{{{".b.p", 3}}, {{".b.KEYA", 3}}, {{".d[7770001]", 7}}, {{".b[] | select(. == 7770003)", 3}}, {{".e.KEYA", 9}}, {{".f[7770001]", 11}},
+		{{".a.KEYA", 1}, {".b.q", 3}}, {{".d[0]", 7}, {".c[7770001]", 5}}, {{".. | select(. == 7770003)", -1}}}
+	snames := []string{"key-in-b", "symbolic-key-in-b", "index-in-d", "select-in-b", "key-in-e", "index-in-f", "a-and-b", "d-and-c", "recursive-select"}
+	si := verifChoice("selection", len(sels))
+	if (si == 4 || si == 5) && pi != 3 && !(si == 4 && pi == 5) {
+		return // .e and .f only exist after the producers that create them
+	}
+	k := verifStrN("k", 1, "pr")
+	idx := verifIntRange("i", -2, 3) // an index further back than the sequence is long is an error (not in this harness)
+	v := verifStrN("v", 1, "03")
+	subst := func(e *ExpressionNode) {
+		vSubst(e, "KEYA", "", k)
+		vSubst(e, "7770001", "!!int", verifItoa(int64(idx)))
+		vSubst(e, "7770003", "!!int", v)
+	}
+	label := "derived-document producer=" + pnames[pi] + " sel=" + snames[si]
+	a := build()
+	resA, errF := vEval(vParse(producers[pi]), a)
+	if errF != nil || resA.Len() != 1 {
+		verifFail("C03/producer-error " + label)
+	}
+	fa := resA.Front().Value.(*CandidateNode)
+	snap := c03SnapshotDoc(fa)
+	var sel [][]int
+	selText := ""
+	var errSel error
+	for pi2, pt := range sels[si] {
+		if pi2 > 0 {
+			selText += ", "
+		}
+		selText += pt.text
+		sExp := vParse(pt.text)
+		subst(sExp)
+		selA, err := c03EvalReadOnly(sExp, fa)
+		if err != nil {
+			errSel = err
+			break
+		}
+		for _, sn := range vNodes(selA) {
+			for _, pos := range c03FindAllPos(fa, sn, nil) {
+				// through a live alias the selection reaches the anchored node, which sits under another top-level entry
+				viaAlias := pt.top >= 0 && fa.Content[pt.top].Kind == AliasNode
+				if len(pos) > 0 && (pt.top < 0 || pos[0] == pt.top || viaAlias) {
+					sel = append(sel, pos)
+				}
+			}
+		}
+	}
+	b := build()
+	dExp := vParse(producers[pi] + " | del(" + selText + ")")
+	subst(dExp)
+	res, errDel := vEval(dExp, b)
+	verifAssert(verifAnd(errSel == nil, errDel == nil), "C03/del-error "+label)
+	if errSel != nil || errDel != nil {
+		return
+	}
+	verifAssert(res.Len() == 1, "C03/result-count "+label)
+	if res.Len() != 1 {
+		return
+	}
+	got := vDump(res.Front().Value.(*CandidateNode))
+	want := c03ExpectedDump(snap, nil, sel)
+	verifObserve("got", got)
+	verifObserve("want", want)
+	verifAssert(verifEqStr(got, want), "C03/exactly-the-selection "+label)
+	if len(sel) > 0 {
+		verifCover("C03/derived/deleted-something")
+	}
+	verifCover("C03/derived/end")
+}
+
+// VerifC03DeleteFromDerivedList: a list derived from a map (its keys, its values, its entries' keys or values) is a
+// value of its own: `f | del(s)` removes exactly the selected elements from the derived list and the map it was
+// derived from still reads as before.
+func VerifC03DeleteFromDerivedList() {
+	n := 2 + verifChoice("n", 2)
+	var keys, vals []string
+	for i := 0; i < n; i++ {
+		k := verifStrN("k"+verifItoa(int64(i)), 1, "ad")
+		for _, p := range keys {
+			verifAssume(!verifEqStr(p, k))
+		}
+		keys, vals = append(keys, k), append(vals, verifStrN("v"+verifItoa(int64(i)), 1, "03"))
+	}
+	build := func() *CandidateNode {
+		m := vMap()
+		for i := range keys {
+			m.Content = append(m.Content, vStr(keys[i]), vInt(vals[i]))
+		}
+		return vDoc(m)
+	}
+	producers := []string{"keys", "[.[]]", "to_entries | map(.value)", "to_entries | map(.key)", "[.. | select(tag == \"!!int\")]", "[keys | .[]]", "[.[] | select(. != 9)]"}
+	pi := verifChoice("producer", len(producers))
+	selKind := verifChoice("selection", 2)
+	idx := verifIntRange("i", -2, 3)
+	v := verifStrN("v", 1, "ad03")
+	selExpr := ".[7770001]"
+	if selKind == 1 {
+		selExpr = ".[] | select(. == \"SELV\" or . == 7770003)"
+	}
+	subst := func(e *ExpressionNode) {
+		vSubst(e, "7770001", "!!int", verifItoa(int64(idx)))
+		vSubst(e, "SELV", "", v)
+		vSubst(e, "7770003", "!!int", v)
+	}
+	label := "derived-list producer=" + producers[pi] + " sel=" + []string{"index", "select"}[selKind]
+	a := build()
+	resA, errF := vEval(vParse(producers[pi]), a)
+	if errF != nil || resA.Len() != 1 {
+		verifFail("C03/producer-error " + label)
+	}
+	fa := resA.Front().Value.(*CandidateNode)
+	snap := c03Snapshot(fa)
+	sExp := vParse(selExpr)
+	subst(sExp)
+	selA, errSel := c03EvalReadOnly(sExp, fa)
+	b := build()
+	before := vDump(b)
+	dExp := vParse(producers[pi] + " | del(" + selExpr + ")")
+	subst(dExp)
+	res, errDel := vEval(dExp, b)
+	verifAssert(verifAnd(errSel == nil, errDel == nil), "C03/del-error "+label)
+	if errSel != nil || errDel != nil {
+		return
+	}
+	var sel [][]int
+	for _, sn := range vNodes(selA) {
+		for i, c := range fa.Content {
+			if c == sn {
+				sel = append(sel, []int{i})
+			}
+		}
+	}
+	verifAssert(res.Len() == 1, "C03/result-count "+label)
+	if res.Len() != 1 {
+		return
+	}
+	got := vDump(res.Front().Value.(*CandidateNode))
+	want := c03ExpectedDump(snap, nil, sel)
+	verifObserve("got", got)
+	verifObserve("want", want)
+	verifAssert(verifEqStr(got, want), "C03/exactly-the-selection "+label)
+	verifAssert(verifEqStr(vDump(b), before), "C03/delete-in-a-derived-list-changed-the-source "+label)
+	if len(sel) > 0 {
+		verifCover("C03/derived-list/deleted-something")
+	}
+	verifCover("C03/derived-list/end")
+}
+
